@@ -73,7 +73,8 @@ def isPredOp : BinOp → Bool
 mutual
   /-- a chain made only of: root `$`, current `@`, `.key`, `.*`, `[*]`, `.**{a to b}`, subscripts
       `[i, j to k, last]` whose bounds are int32 literals or `last`, literals, `.type()`, `.size()`
-      and — if `ff` — filters `?(p)` with `p` a predicate `PredG`:
+      and — if `ff` — filters `?(p)` and predicates `p` in chain position (`$.a == 1`, `exists($.a)`),
+      with `p` a predicate `PredG`:
       no arithmetic, no variables, no other methods -/
   def AccG (ff : Bool) : Node → Bool
     | .const k nx => accConst k && AccGOpt ff nx
@@ -84,17 +85,26 @@ mutual
     | .integer _ nx => AccGOpt ff nx
     | .numeric _ nx => AccGOpt ff nx
     | .method m nx => accMethod m && AccGOpt ff nx
-    | .unary .filter (some cond) nx => ff && PredG ff cond && AccGOpt ff nx
+    | .unary .filter (some cond) nx => ff && PredG ff cond && cond.next.isNone && AccGOpt ff nx
+    | .unary .not (some x) nx => ff && PredG ff x && x.next.isNone && AccGOpt ff nx
+    | .unary .isUnknown (some x) nx => ff && PredG ff x && x.next.isNone && AccGOpt ff nx
+    | .unary .exists (some x) nx => ff && AccG ff x && AccGOpt ff nx
+    | .binary op (some l) (some r) nx =>
+      ff && ((isConnective op && PredG ff l && l.next.isNone && PredG ff r && r.next.isNone) ||
+             (isPredOp op && AccG ff l && AccG ff r)) && AccGOpt ff nx
+    | .regex x _ _ nx => ff && AccG ff x && AccGOpt ff nx
     | _ => false
-  /-- a predicate: `&&`, `||`, `!`, `is unknown`, `exists(path)`, comparisons and `starts with`
-      between paths, `path like_regex "…"`; nothing chained to it -/
+  /-- a predicate (its own `next` is not looked at): `&&`, `||`, `!`, `is unknown` over predicates with
+      nothing chained to them, `exists(path)`, comparisons and `starts with` between paths,
+      `path like_regex "…"` -/
   def PredG (ff : Bool) : Node → Bool
-    | .binary op (some l) (some r) none =>
-      (isConnective op && PredG ff l && PredG ff r) || (ff && isPredOp op && AccG ff l && AccG ff r)
-    | .unary .not (some x) none => PredG ff x
-    | .unary .isUnknown (some x) none => PredG ff x
-    | .unary .exists (some x) none => AccG ff x
-    | .regex x _ _ none => ff && AccG ff x
+    | .binary op (some l) (some r) _ =>
+      (isConnective op && PredG ff l && l.next.isNone && PredG ff r && r.next.isNone) ||
+      (ff && isPredOp op && AccG ff l && AccG ff r)
+    | .unary .not (some x) _ => PredG ff x && x.next.isNone
+    | .unary .isUnknown (some x) _ => PredG ff x && x.next.isNone
+    | .unary .exists (some x) _ => AccG ff x
+    | .regex x _ _ _ => ff && AccG ff x
     | _ => false
   def AccGOpt (ff : Bool) : Option Node → Bool
     | none => true
@@ -103,7 +113,7 @@ end
 
 /-- accessor paths without filters -/
 def Accessor (n : Node) : Bool := AccG false n
-/-- accessor paths with filters -/
+/-- accessor paths with filters and predicates -/
 def AccessorF (n : Node) : Bool := AccG true n
 
 /-! ## document classes -/
@@ -264,7 +274,7 @@ def LTA (D : Item → Prop) (c : Ctx) (ff : Bool) (any : AnyK) : Prop :=
     Out D c s (any s node vs f l a b i u)
 
 def LTB (D : Item → Prop) (c : Ctx) (ff : Bool) (bool : BoolK) : Prop :=
-  ∀ s n v chn, PredG ff n = true → D v → D s.current →
+  ∀ s n v chn, PredG ff n = true → (chn = false → n.next = none) → D v → D s.current →
     OutP c s (bool s n v chn).st (bool s n v chn).err
 
 theorem Out3.ret {c : Ctx} {s s1 : St} (hk : Keep s s1) (st : Status) (e : Option Err)
@@ -917,8 +927,8 @@ theorem likeRegex_clean (hre : ∀ p fl t, (c.regexMatch p fl t).isSome = true) 
   · simp [CbClean]
 
 theorem PredG_binary_inv {op : BinOp} {l r nx : Option Node} (h : PredG ff (.binary op l r nx) = true) :
-    ∃ ln rn, l = some ln ∧ r = some rn ∧ nx = none ∧
-      ((isConnective op = true ∧ PredG ff ln = true ∧ PredG ff rn = true) ∨
+    ∃ ln rn, l = some ln ∧ r = some rn ∧
+      ((isConnective op = true ∧ (PredG ff ln = true ∧ ln.next = none) ∧ PredG ff rn = true ∧ rn.next = none) ∨
        (ff = true ∧ isPredOp op = true ∧ AccG ff ln = true ∧ AccG ff rn = true)) := by
   cases l with
   | none => simp [PredG] at h
@@ -926,39 +936,24 @@ theorem PredG_binary_inv {op : BinOp} {l r nx : Option Node} (h : PredG ff (.bin
     cases r with
     | none => simp [PredG] at h
     | some rn =>
-      cases nx with
-      | some _ => simp [PredG] at h
-      | none =>
-        refine ⟨ln, rn, rfl, rfl, rfl, ?_⟩
-        simp only [PredG, Bool.or_eq_true, Bool.and_eq_true] at h
-        rcases h with h | h
-        · exact Or.inl ⟨h.1.1, h.1.2, h.2⟩
-        · exact Or.inr ⟨h.1.1.1, h.1.1.2, h.1.2, h.2⟩
+      refine ⟨ln, rn, rfl, rfl, ?_⟩
+      simp only [PredG, Bool.or_eq_true, Bool.and_eq_true, Option.isNone_iff_eq_none] at h
+      rcases h with h | h
+      · exact Or.inl ⟨h.1.1.1.1, ⟨h.1.1.1.2, h.1.1.2⟩, h.1.2, h.2⟩
+      · exact Or.inr ⟨h.1.1.1, h.1.1.2, h.1.2, h.2⟩
 
 theorem PredG_unary_inv {op : UnOp} {x nx : Option Node} (h : PredG ff (.unary op x nx) = true) :
-    ∃ xn, x = some xn ∧ nx = none ∧
-      (((op = .not ∨ op = .isUnknown) ∧ PredG ff xn = true) ∨ (op = .exists ∧ AccG ff xn = true)) := by
+    ∃ xn, x = some xn ∧
+      (((op = .not ∨ op = .isUnknown) ∧ PredG ff xn = true ∧ xn.next = none) ∨
+       (op = .exists ∧ AccG ff xn = true)) := by
   cases x with
   | none => cases op <;> simp [PredG] at h
   | some xn =>
-    cases nx with
-    | some _ => cases op <;> simp [PredG] at h
-    | none =>
-      refine ⟨xn, rfl, rfl, ?_⟩
-      cases op <;> simp [PredG] at h
-      · exact Or.inr ⟨rfl, h⟩
-      · exact Or.inl ⟨Or.inl rfl, h⟩
-      · exact Or.inl ⟨Or.inr rfl, h⟩
-
-theorem PredG_next {n : Node} (h : PredG ff n = true) : n.next = none := by
-  cases n with
-  | binary op l r nx => obtain ⟨_, _, _, _, rfl, _⟩ := PredG_binary_inv h; rfl
-  | unary op x nx => obtain ⟨_, _, rfl, _⟩ := PredG_unary_inv h; rfl
-  | regex x p fl nx =>
-    cases nx with
-    | none => rfl
-    | some _ => simp [PredG] at h
-  | _ => simp [PredG] at h
+    refine ⟨xn, rfl, ?_⟩
+    cases op <;> simp [PredG] at h
+    · exact Or.inr ⟨rfl, h⟩
+    · exact Or.inl ⟨Or.inl rfl, h⟩
+    · exact Or.inl ⟨Or.inr rfl, h⟩
 
 theorem binaryBool_cmp_eq {item : ItemK} {bool : BoolK} (s : St) (op : BinOp) (ln rn : Node) (v : Item)
     (h : isCompareOp op = true) :
@@ -970,11 +965,11 @@ theorem executeBinaryBoolItem_out (E : Env D c ff) {item : ItemK} {bool : BoolK}
     (hB : LTB D c ff bool) (s : St) (op : BinOp) (l r nx : Option Node) (v : Item)
     (hn : PredG ff (.binary op l r nx) = true) (hv : D v) (hcur : D s.current) :
     OutP c s (executeBinaryBoolItem c item bool s op l r v).st (executeBinaryBoolItem c item bool s op l r v).err := by
-  obtain ⟨ln, rn, rfl, rfl, rfl, hcase⟩ := PredG_binary_inv hn
+  obtain ⟨ln, rn, rfl, rfl, hcase⟩ := PredG_binary_inv hn
   rcases hcase with ⟨hop, hp1, hp2⟩ | ⟨hff, hop, hp1, hp2⟩
-  · have ha := hB s ln v false hp1 hv hcur
+  · have ha := hB s ln v false hp1.1 (fun _ => hp1.2) hv hcur
     have hb : OutP c s (bool (bool s ln v false).st rn v false).st (bool (bool s ln v false).st rn v false).err :=
-      OutP.tail ha.1 (hB _ rn v false hp2 hv (by rw [ha.1.current]; exact hcur))
+      OutP.tail ha.1 (hB _ rn v false hp2.1 (fun _ => hp2.2) hv (by rw [ha.1.current]; exact hcur))
     cases op <;> simp [isConnective] at hop
     · -- and
       simp only [executeBinaryBoolItem]
@@ -1007,9 +1002,9 @@ theorem executeUnaryBoolItem_out (E : Env D c ff) {item : ItemK} {bool : BoolK} 
     (hB : LTB D c ff bool) (s : St) (op : UnOp) (x nx : Option Node) (v : Item)
     (hn : PredG ff (.unary op x nx) = true) (hv : D v) (hcur : D s.current) :
     OutP c s (executeUnaryBoolItem c item bool s op x v).st (executeUnaryBoolItem c item bool s op x v).err := by
-  obtain ⟨xn, rfl, rfl, hcase⟩ := PredG_unary_inv hn
-  rcases hcase with ⟨hop, hp⟩ | ⟨rfl, hp⟩
-  · have ha := hB s xn v false hp hv hcur
+  obtain ⟨xn, rfl, hcase⟩ := PredG_unary_inv hn
+  rcases hcase with ⟨hop, hp, hpn⟩ | ⟨rfl, hp⟩
+  · have ha := hB s xn v false hp (fun _ => hpn) hv hcur
     rcases hop with rfl | rfl
     · simp only [executeUnaryBoolItem]
       split
@@ -1039,61 +1034,129 @@ theorem executeUnaryBoolItem_out (E : Env D c ff) {item : ItemK} {bool : BoolK} 
 
 theorem executeBoolItem_out (E : Env D c ff) {item : ItemK} {bool : BoolK} (hI : LTI D c ff item)
     (hB : LTB D c ff bool) (s : St) (n : Node) (v : Item) (chn : Bool)
-    (hn : PredG ff n = true) (hv : D v) (hcur : D s.current) :
+    (hn : PredG ff n = true) (hnx : chn = false → n.next = none) (hv : D v) (hcur : D s.current) :
     OutP c s (executeBoolItem c item bool s n v chn).st (executeBoolItem c item bool s n v chn).err := by
-  have hnx := PredG_next hn
+  have hgate : (!chn && n.next.isSome) = false := by
+    cases chn with
+    | true => rfl
+    | false => simp [hnx rfl]
   cases n with
   | binary op l r nx =>
-    simp only [Node.next] at hnx; subst hnx
-    simp only [executeBoolItem, Node.next, Option.isSome_none, Bool.and_false, Bool.false_eq_true, if_false]
+    simp only [executeBoolItem, hgate, Bool.false_eq_true, if_false]
     exact executeBinaryBoolItem_out E hI hB s _ _ _ _ v hn hv hcur
   | unary op x nx =>
-    simp only [Node.next] at hnx; subst hnx
-    simp only [executeBoolItem, Node.next, Option.isSome_none, Bool.and_false, Bool.false_eq_true, if_false]
+    simp only [executeBoolItem, hgate, Bool.false_eq_true, if_false]
     exact executeUnaryBoolItem_out E hI hB s _ _ _ v hn hv hcur
   | regex x pat fl nx =>
-    simp only [Node.next] at hnx; subst hnx
     have hp : ff = true ∧ AccG ff x = true := by simpa [PredG] using hn
-    simp only [executeBoolItem, Node.next, Option.isSome_none, Bool.and_false, Bool.false_eq_true, if_false]
+    simp only [executeBoolItem, hgate, Bool.false_eq_true, if_false]
     exact executePredicate_out E hI s x none v false _ hp.2 (fun rn h => by cases h) hv hcur
       (fun l _ _ _ => likeRegex_clean (E.filt hp.1).regex pat fl l)
   | _ => simp [PredG] at hn
 
 theorem executeNestedBoolItem_out {bool : BoolK} (hB : LTB D c ff bool) (s : St) (n : Node) (v : Item)
-    (hn : PredG ff n = true) (hv : D v) :
+    (hn : PredG ff n = true) (hnx : n.next = none) (hv : D v) :
     OutP c s (executeNestedBoolItem bool s n v).st (executeNestedBoolItem bool s n v).err := by
   unfold executeNestedBoolItem
-  have h := hB { s with current := v } n v false hn hv hv
+  have h := hB { s with current := v } n v false hn (fun _ => hnx) hv hv
   exact ⟨⟨rfl, h.1.innermost, h.1.ign, h.1.panicked, h.1.budget, h.1.mono⟩, fun hd => h.2 hd⟩
 
-theorem AccG_filter_inv {op : UnOp} {x nx : Option Node} (h : AccG ff (.unary op x nx) = true) :
-    op = .filter ∧ ∃ cond, x = some cond ∧ ff = true ∧ PredG ff cond = true ∧ AccGOpt ff nx = true := by
+theorem predItem_D (E : Env D c ff) (p : Pred) : D (predItem p) := by
+  cases p
+  · exact E.doc.bool _
+  · exact E.doc.bool _
+  · exact E.doc.null
+
+theorem appendBoolResult_lt (E : Env D c ff) {item : ItemK} (hI : LTI D c ff item) (s : St) (nx : Option Node)
+    (f : Found) (p : PRes) (hp : OutP c s p.st p.err) (hn : AccGOpt ff nx = true) (hcur : D s.current)
+    (hf : AllD D f) : Out D c s (appendBoolResult c item nx f p) := by
+  unfold appendBoolResult
+  split
+  · rename_i e he
+    refine ⟨⟨hp.1, fun hd => ?_⟩, hf⟩
+    have := hp.2 hd
+    rw [he] at this
+    exact ⟨this.1, fun hlx => by cases this.2 hlx⟩
+  · split
+    · exact ⟨Out3.ok hp.1 _ (by simp), hf⟩
+    · exact next_from hI hp.1 nx _ f hn (predItem_D E _) hcur hf
+
+/-- the unary nodes of the class: a filter, or `!`, `is unknown`, `exists` in chain position -/
+theorem AccG_unary_inv {op : UnOp} {x nx : Option Node} (h : AccG ff (.unary op x nx) = true) :
+    AccGOpt ff nx = true ∧
+    ((op = .filter ∧ ∃ cond, x = some cond ∧ PredG ff cond = true ∧ cond.next = none) ∨
+     ((op = .not ∨ op = .isUnknown ∨ op = .exists) ∧ PredG ff (.unary op x nx) = true)) := by
   cases x with
   | none => cases op <;> simp [AccG] at h
-  | some cond =>
+  | some xn =>
     cases op <;> simp [AccG] at h
-    exact ⟨rfl, cond, rfl, h.1.1, h.1.2, h.2⟩
+    · exact ⟨h.2, Or.inr ⟨Or.inr (Or.inr rfl), by simp [PredG, h.1.2]⟩⟩
+    · exact ⟨h.2, Or.inr ⟨Or.inl rfl, by simp [PredG, h.1.1.2, h.1.2]⟩⟩
+    · exact ⟨h.2, Or.inr ⟨Or.inr (Or.inl rfl), by simp [PredG, h.1.1.2, h.1.2]⟩⟩
+    · exact ⟨h.2, Or.inl ⟨rfl, xn, rfl, h.1.1.2, h.1.2⟩⟩
 
 theorem execUnaryNode_lt (E : Env D c ff) {item : ItemK} {bool : BoolK} {any : AnyK} (hI : LTI D c ff item)
-    (hB : LTB D c ff bool) (hA : LTA D c ff any) (s : St) (n : Node) (op : UnOp) (x nx : Option Node) (v : Item)
-    (f : Found) (unwrap : Bool) (hself : AccG ff n = true) (hn : AccG ff (.unary op x nx) = true)
+    (hB : LTB D c ff bool) (hA : LTA D c ff any) (s : St) (op : UnOp) (x nx : Option Node) (v : Item)
+    (f : Found) (unwrap : Bool) (hn : AccG ff (.unary op x nx) = true)
     (hv : D v) (hcur : D s.current) (hf : AllD D f) :
-    Out D c s (execUnaryNode c item bool any s n op x nx v f unwrap) := by
-  obtain ⟨rfl, cond, rfl, -, hp, hnx⟩ := AccG_filter_inv hn
-  simp only [execUnaryNode]
-  split
-  · rename_i xs
-    unfold unwrapTargetArray
-    exact any_from hA (Keep.refl s) (some n) xs f 1 1 1 false false hself (E.doc.arr xs hv) hcur hf
-  · have hb := executeNestedBoolItem_out hB s cond v hp hv
-    try dsimp only
+    Out D c s (execUnaryNode c item bool any s (.unary op x nx) op x nx v f unwrap) := by
+  obtain ⟨hnx, hcase⟩ := AccG_unary_inv hn
+  rcases hcase with ⟨rfl, cond, rfl, hp, hcn⟩ | ⟨hop, hp⟩
+  · simp only [execUnaryNode]
     split
-    · refine ⟨⟨hb.1, fun hd => ⟨(hb.2 hd).1, fun hlx => ?_⟩⟩, hf⟩
-      rename_i hsome
-      rw [(hb.2 hd).2 hlx] at hsome; simp at hsome
-    · split
-      · exact ⟨Out3.ok hb.1 _ (by simp), hf⟩
-      · exact next_from hI hb.1 nx v f hnx hv hcur hf
+    · rename_i xs
+      unfold unwrapTargetArray
+      exact any_from hA (Keep.refl s) (some _) xs f 1 1 1 false false hn (E.doc.arr xs hv) hcur hf
+    · have hb := executeNestedBoolItem_out hB s cond v hp hcn hv
+      try dsimp only
+      split
+      · refine ⟨⟨hb.1, fun hd => ⟨(hb.2 hd).1, fun hlx => ?_⟩⟩, hf⟩
+        rename_i hsome
+        rw [(hb.2 hd).2 hlx] at hsome; simp at hsome
+      · split
+        · exact ⟨Out3.ok hb.1 _ (by simp), hf⟩
+        · exact next_from hI hb.1 nx v f hnx hv hcur hf
+  · have hb := hB s (.unary op x nx) v true hp (fun h => by cases h) hv hcur
+    rcases hop with rfl | rfl | rfl <;> simp only [execUnaryNode] <;>
+      exact appendBoolResult_lt E hI s nx f _ hb hnx hcur hf
+
+theorem AccG_binary_inv {op : BinOp} {l r nx : Option Node} (h : AccG ff (.binary op l r nx) = true) :
+    AccGOpt ff nx = true ∧ isBoolBinOp op = true ∧ PredG ff (.binary op l r nx) = true := by
+  cases l with
+  | none => simp [AccG] at h
+  | some ln =>
+    cases r with
+    | none => simp [AccG] at h
+    | some rn =>
+      simp only [AccG, Bool.and_eq_true, Bool.or_eq_true] at h
+      obtain ⟨⟨hff, hc⟩, hnx⟩ := h
+      refine ⟨hnx, ?_, ?_⟩
+      · rcases hc with hc | hc
+        · have := hc.1.1.1.1; cases op <;> simp [isConnective] at this <;> rfl
+        · have := hc.1.1; cases op <;> simp [isPredOp] at this <;> rfl
+      · simp only [PredG, Bool.and_eq_true, Bool.or_eq_true]
+        rcases hc with hc | hc
+        · exact Or.inl hc
+        · exact Or.inr ⟨⟨⟨hff, hc.1.1⟩, hc.1.2⟩, hc.2⟩
+
+theorem execBinaryNode_lt (E : Env D c ff) {item : ItemK} {bool : BoolK} {any : AnyK} (hI : LTI D c ff item)
+    (hB : LTB D c ff bool) (s : St) (op : BinOp) (l r nx : Option Node) (v : Item)
+    (f : Found) (unwrap : Bool) (hn : AccG ff (.binary op l r nx) = true)
+    (hv : D v) (hcur : D s.current) (hf : AllD D f) :
+    Out D c s (execBinaryNode c item bool any s (.binary op l r nx) op l r nx v f unwrap) := by
+  obtain ⟨hnx, hop, hp⟩ := AccG_binary_inv hn
+  unfold execBinaryNode
+  simp only [hop, if_true]
+  exact appendBoolResult_lt E hI s nx f _ (hB s _ v true hp (fun h => by cases h) hv hcur) hnx hcur hf
+
+theorem execRegexNode_lt (E : Env D c ff) {item : ItemK} {bool : BoolK} (hI : LTI D c ff item)
+    (hB : LTB D c ff bool) (s : St) (x : Node) (pat : List Char) (fl : Nat) (nx : Option Node) (v : Item)
+    (f : Found) (hn : AccG ff (.regex x pat fl nx) = true)
+    (hv : D v) (hcur : D s.current) (hf : AllD D f) :
+    Out D c s (appendBoolResult c item nx f (bool s (.regex x pat fl nx) v true)) := by
+  have h : (ff = true ∧ AccG ff x = true) ∧ AccGOpt ff nx = true := by simpa [AccG] using hn
+  exact appendBoolResult_lt E hI s nx f _
+    (hB s _ v true (by simp only [PredG, Bool.and_eq_true]; exact h.1) (fun h => by cases h) hv hcur) h.2 hcur hf
 
 end Preds
 
@@ -1116,9 +1179,9 @@ theorem dispatch_lt (E : Env D c ff) {item : ItemK} {bool : BoolK} {any : AnyK} 
   · exact execLiteral_lt hI _ _ _ _ (by simpa [AccG] using hn) (E.doc.flt _) hcur hf
   · simp [AccG] at hn
   · exact execKeyNode_lt E hI hA _ _ _ _ _ _ _ hn (by simpa [AccG] using hn) hv hcur hf
-  · simp [AccG] at hn
-  · exact execUnaryNode_lt E hI hB hA _ _ _ _ _ _ _ _ hn hn hv hcur hf
-  · simp [AccG] at hn
+  · exact execBinaryNode_lt E hI hB _ _ _ _ _ _ _ _ hn hv hcur hf
+  · exact execUnaryNode_lt E hI hB hA _ _ _ _ _ _ _ hn hv hcur hf
+  · exact execRegexNode_lt E hI hB _ _ _ _ _ _ _ hn hv hcur hf
   · rename_i m nx
     have h : accMethod m = true ∧ AccGOpt ff nx = true := by simpa [AccG] using hn
     exact execMethodNode_lt E hI _ _ _ _ _ _ _ h.1 h.2 hcur hf
@@ -1162,7 +1225,7 @@ theorem lt_all (E : Env D c ff) : ∀ fuel : Nat,
   intro fuel
   induction fuel with
   | zero =>
-    refine ⟨⟨fun s n v f u _ _ _ hf => ?_, fun s n v u _ _ => ?_⟩, fun s n v chn _ _ _ => ?_,
+    refine ⟨⟨fun s n v f u _ _ _ hf => ?_, fun s n v u _ _ => ?_⟩, fun s n v chn _ _ _ _ => ?_,
       fun s node vs f l a b i u _ _ _ hf => ?_⟩
     · simp only [xItem]; exact ⟨Out3.ofDirty (Keep.oof s) (by simp [dirty]) _ _, hf⟩
     · simp only [xItem]; exact ⟨Keep.oof s, fun hd => by simp [dirty] at hd⟩
@@ -1170,7 +1233,7 @@ theorem lt_all (E : Env D c ff) : ∀ fuel : Nat,
     · simp only [xAny]; exact ⟨Out3.ofDirty (Keep.oof s) (by simp [dirty]) _ _, hf⟩
   | succ fuel ih =>
     obtain ⟨hI, hB, hA⟩ := ih
-    refine ⟨⟨fun s n v f u hn hv hcur hf => ?_, fun s n v u hb h0 => ?_⟩, fun s n v chn hn hv hcur => ?_,
+    refine ⟨⟨fun s n v f u hn hv hcur hf => ?_, fun s n v u hb h0 => ?_⟩, fun s n v chn hn hnx hv hcur => ?_,
       fun s node vs f l a b i u hn hvs hcur hf => ?_⟩
     · simp only [xItem]
       split
@@ -1191,7 +1254,7 @@ theorem lt_all (E : Env D c ff) : ∀ fuel : Nat,
         obtain ⟨h1, h2, i, h3, h4⟩ := hd.2 hcl
         exact ⟨h1, h2, i, h3, fun hle => h4 (by rw [hk.innermost]; exact hle)⟩
     · simp only [xBool]
-      exact executeBoolItem_out E hI hB s n v chn hn hv hcur
+      exact executeBoolItem_out E hI hB s n v chn hn hnx hv hcur
     · simp only [xAny]
       exact executeAnyItem_lt E hI hA s node vs f l a b i u hn hvs hcur hf
 
@@ -1217,7 +1280,7 @@ mutual
     | .method m nx, h => by
       simp only [AccG, Bool.and_eq_true] at h ⊢; exact ⟨h.1, AccGOpt_mono nx h.2⟩
     | .unary op x nx, h => by cases op <;> cases x <;> simp [AccG] at h
-    | .binary .., h => by simp [AccG] at h
+    | .binary op l r nx, h => by cases l <;> cases r <;> simp [AccG] at h
     | .regex .., h => by simp [AccG] at h
     | .var .., h => by simp [AccG] at h
   theorem AccGOpt_mono : ∀ nx : Option Node, AccGOpt false nx = true → AccGOpt true nx = true
